@@ -88,6 +88,21 @@ def tlc_records(out, markers=("REJECT", "DONE", "EDGE")):
     return recs
 
 
+def library_runtime_abort(stderr):
+    """'fatal error: concurrent map ...' whose innermost non-runtime frame is in the library: returns a one-line description, else ''."""
+    m = re.search(r"fatal error: (concurrent map[^\n]*)\n", stderr)
+    if not m:
+        return ""
+    frames = re.findall(r"^([A-Za-z0-9_./\-]+(?:\.\(\*?[A-Za-z0-9_]+\))?\.[A-Za-z0-9_.]+)\(", stderr[m.end():], re.M)
+    for f in frames:
+        if f.startswith(("runtime.", "internal/runtime", "internal/")):
+            continue
+        if f.startswith("github.com/6tail/lunar-go/"):
+            return "%s in %s" % (m.group(1), f)
+        return ""
+    return ""
+
+
 class Run:
     def __init__(self, pid, tier, seed, level, keep=False):
         self.pid = pid
@@ -228,6 +243,14 @@ class Run:
                 # real behaviour, and C09's subject: a call panicked and left the library's lock held for ever
                 what = [ln for ln in se.splitlines() if "LZ-LOCK-LEAKED" in ln][0][:300]
                 self.rejects.append({"name": "C09.lock.left-held-by-a-panicking-call", "line": 0,
+                                     "key": "<<%s, %s>>" % (json.dumps(cmd), json.dumps(what, ensure_ascii=False)), "chunk": base})
+                log("driver %s shard %d: %s" % (cmd, i, what))
+                continue
+            if p.returncode == 2 and self.pid == "C09" and library_runtime_abort(se or ""):
+                # real behaviour too: the Go runtime stopped the process because library code used a map from several
+                # goroutines at once (the innermost non-runtime frame of the aborting goroutine is the library's)
+                what = library_runtime_abort(se)
+                self.rejects.append({"name": "C09.concurrent.runtime-abort-in-library-code", "line": 0,
                                      "key": "<<%s, %s>>" % (json.dumps(cmd), json.dumps(what, ensure_ascii=False)), "chunk": base})
                 log("driver %s shard %d: %s" % (cmd, i, what))
                 continue
